@@ -38,14 +38,17 @@ type MEndpoint struct {
 	Errors     []int      `json:"errors"`
 	Reqs       [][]string `json:"reqs"`
 	Unmodelled string     `json:"unmodelled,omitempty"`
+	Gen        bool       `json:"generate"` // false: openapi:generate=false on the method or its HTTP endpoint
 }
 
 type MFile struct {
 	Paths []string `json:"paths"`
+	Gen   bool     `json:"generate"`
 }
 
 type MService struct {
 	Name      string      `json:"name"`
+	Gen       bool        `json:"generate"`
 	Endpoints []MEndpoint `json:"endpoints"`
 	Files     []MFile     `json:"files"`
 }
@@ -81,6 +84,19 @@ func reqNames(rs []*expr.SecurityExpr) [][]string {
 	return out
 }
 
+// marked reads the mark Meta("openapi:generate", "false") (or swagger:generate) leaves
+// on an expression: the last value wins.
+func marked(metas ...expr.MetaExpr) bool {
+	for _, m := range metas {
+		for _, k := range []string{"openapi:generate", "swagger:generate"} {
+			if v, ok := m.Last(k); ok && v == "false" {
+				return true
+			}
+		}
+	}
+	return false
+}
+
 // extractModel reads the finalized design from expr.Root.
 func extractModel() *MDesign {
 	md := &MDesign{APIReqs: reqNames(expr.Root.API.Requirements)}
@@ -88,9 +104,9 @@ func extractModel() *MDesign {
 		md.Schemes = append(md.Schemes, s.SchemeName)
 	}
 	for _, hs := range expr.Root.API.HTTP.Services {
-		ms := MService{Name: hs.Name()}
+		ms := MService{Name: hs.Name(), Gen: !marked(hs.Meta, hs.ServiceExpr.Meta)}
 		for _, e := range hs.HTTPEndpoints {
-			me := MEndpoint{Name: e.Name(), Body: e.Body.Type != expr.Empty, Multipart: e.MultipartRequest}
+			me := MEndpoint{Name: e.Name(), Body: e.Body.Type != expr.Empty, Multipart: e.MultipartRequest, Gen: !marked(e.Meta, e.MethodExpr.Meta)}
 			for _, r := range e.Routes {
 				me.Routes = append(me.Routes, MRoute{Verb: strings.ToUpper(r.Method), Paths: r.FullPaths()})
 			}
@@ -121,7 +137,7 @@ func extractModel() *MDesign {
 			ms.Endpoints = append(ms.Endpoints, me)
 		}
 		for _, f := range hs.FileServers {
-			ms.Files = append(ms.Files, MFile{Paths: append([]string(nil), f.RequestPaths...)})
+			ms.Files = append(ms.Files, MFile{Paths: append([]string(nil), f.RequestPaths...), Gen: !marked(f.Meta)})
 		}
 		md.Services = append(md.Services, ms)
 	}
@@ -211,8 +227,8 @@ func (in *interner) coqDesign(md *MDesign) (string, bool) {
 			if e.Basic != nil {
 				basic = fmt.Sprintf("(Some (%d, %s))", in.id("Authorization"), vh.CoqBool(*e.Basic))
 			}
-			eps = append(eps, fmt.Sprintf("mke [%s] %s %s %s %s %s %s %s %s %s", strings.Join(rts, "; "), in.mparams(e.Params), in.mparams(e.Headers), in.mparams(e.Cookies),
-				vh.CoqBool(e.Body), vh.CoqBool(e.Multipart), basic, coqNList(e.Responses), coqNList(e.Errors), in.reqs(e.Reqs)))
+			eps = append(eps, fmt.Sprintf("mkme (mke [%s] %s %s %s %s %s %s %s %s %s) %s", strings.Join(rts, "; "), in.mparams(e.Params), in.mparams(e.Headers), in.mparams(e.Cookies),
+				vh.CoqBool(e.Body), vh.CoqBool(e.Multipart), basic, coqNList(e.Responses), coqNList(e.Errors), in.reqs(e.Reqs), vh.CoqBool(e.Gen)))
 		}
 		var fss []string
 		for _, f := range s.Files {
@@ -222,11 +238,11 @@ func (in *interner) coqDesign(md *MDesign) (string, bool) {
 				ok = ok && o
 				ps = append(ps, t)
 			}
-			fss = append(fss, "mkf ["+strings.Join(ps, "; ")+"]")
+			fss = append(fss, "mkmf (mkf ["+strings.Join(ps, "; ")+"]) "+vh.CoqBool(f.Gen))
 		}
-		svcs = append(svcs, fmt.Sprintf("mks [%s] [%s]", strings.Join(eps, "; "), strings.Join(fss, "; ")))
+		svcs = append(svcs, fmt.Sprintf("mkms [%s] [%s] %s", strings.Join(eps, "; "), strings.Join(fss, "; "), vh.CoqBool(s.Gen)))
 	}
-	return fmt.Sprintf("(mkd [%s] %s)", strings.Join(svcs, "; "), in.reqs(md.APIReqs)), ok
+	return fmt.Sprintf("(mkmd [%s] %s)", strings.Join(svcs, "; "), in.reqs(md.APIReqs)), ok
 }
 
 // pathAttr tokenises a path whose wildcard names are attribute names.
